@@ -8,6 +8,7 @@ import (
 	"math/rand"
 	"os"
 	"path/filepath"
+	"runtime/debug"
 	"sort"
 	"strings"
 
@@ -272,11 +273,86 @@ func buildNest(fam string, n int) []byte {
 	case "method":
 		sb.WriteString("return o")
 		rep(":m()")
+	// conditions (compiled by the branch-condition compiler, not as values)
+	case "if-not":
+		sb.WriteString("if ")
+		rep("not ")
+		sb.WriteString("x then end")
+	case "while-not":
+		sb.WriteString("while ")
+		rep("not ")
+		sb.WriteString("x do end")
+	case "until-not":
+		sb.WriteString("repeat until ")
+		rep("not ")
+		sb.WriteString("x")
+	case "if-and":
+		sb.WriteString("if x")
+		rep(" and x")
+		sb.WriteString(" then end")
+	case "if-or":
+		sb.WriteString("if x")
+		rep(" or x")
+		sb.WriteString(" then end")
+	case "if-and-right":
+		sb.WriteString("if ")
+		rep("x and (")
+		sb.WriteString("x")
+		rep(")")
+		sb.WriteString(" then end")
+	case "if-lt-chain":
+		sb.WriteString("if x")
+		rep(" < x")
+		sb.WriteString(" then end")
+	// flat left-associative chains (one deep left spine in the tree)
+	case "flat-add":
+		sb.WriteString("return x")
+		rep("+x")
+	case "flat-mixed-arith":
+		sb.WriteString("return x")
+		for i := 0; i < n; i++ {
+			sb.WriteString([]string{"+x", "-1", "*x", "/2", "%x"}[i%5])
+		}
+	case "flat-const-add":
+		sb.WriteString("return 1")
+		rep("+1")
+	case "flat-eq":
+		sb.WriteString("return x")
+		rep("==x")
+	case "flat-or":
+		sb.WriteString("return x")
+		rep(" or x")
+	case "elseif":
+		sb.WriteString("if x then")
+		rep(" elseif x then")
+		sb.WriteString(" end")
+	case "assign-chain":
+		sb.WriteString("local t = {} t")
+		rep(".a")
+		sb.WriteString(" = 1")
+	case "call-args":
+		sb.WriteString("return ")
+		rep("f(")
+		sb.WriteString("1")
+		rep(")")
 	}
 	return []byte(sb.String())
 }
 
+// deepFamilies are loaded at 10^6 levels / terms in both tiers. The worker's
+// goroutine stack limit is lowered (see run), so a compiler or parser path
+// that recurses once per level without the syntax-level guard overflows here
+// at a 4 MB input instead of at the 16-30 MB one that the default limit needs.
+var deepFamilies = []string{"if-not", "while-not", "until-not", "if-and", "if-or", "if-and-right", "if-lt-chain", "flat-add", "flat-mixed-arith", "flat-const-add",
+	"flat-eq", "flat-or", "elseif", "assign-chain", "call-args", "not", "minus", "and", "call", "index", "method", "paren", "string-call", "len"}
+
+// maxStackMB: the compiler's guarded recursion (10000 syntax levels) needs
+// between 4 and 8 MB of goroutine stack on every nesting family (measured);
+// 64 MB leaves a factor of 8. Go's default is 1 GB on 64-bit platforms.
+const maxStackMB = 64
+
 func run(c *fw.Ctx) {
+	debug.SetMaxStack(maxStackMB << 20)
 	// 1. random bytes and token soups
 	n1 := c.Pick(20000, 2000000)
 	for i := 0; i < n1; i++ {
@@ -353,6 +429,22 @@ func run(c *fw.Ctx) {
 			c.Count("programs_truncated_at_every_offset", 1)
 		}
 	}
+	// 2b. line ends of every kind slid across the reader's 4096-byte refills
+	{
+		ref := lrun.RunImpl(alignSource(0, "\n"), &lrun.Config{})
+		plen := len(alignProgram) + 40
+		ai := 0
+		for _, boundary := range []int{4096, 8192, 12288}[:c.Pick(2, 3)] {
+			for k := boundary - plen; k <= boundary+4; k++ {
+				for _, eol := range []string{"\r\n", "\n\r", "\r", "\n"} {
+					ai++
+					if c.Mine(ai) {
+						runAlign(c, k, eol, ref, true)
+					}
+				}
+			}
+		}
+	}
 	// 3. corpus: mutations and strided truncation
 	for i, f := range corpusFiles() {
 		if !c.Mine(i) {
@@ -392,6 +484,17 @@ func run(c *fw.Ctx) {
 			c.Count(fmt.Sprintf("nesting_%s_%d_%s", fam, n, cls), 1)
 		}
 	}
+	// 4b. deep families
+	for _, fam := range deepFamilies {
+		for _, n := range []int{1000000, 3000000}[:c.Pick(1, 2)] {
+			idx++
+			if !c.Mine(idx) {
+				continue
+			}
+			cls := check(c, Case{Kind: "nesting", Family: fam, N: n}, buildNest(fam, n), true)
+			c.Count(fmt.Sprintf("nesting_%s_%d_%s", fam, n, cls), 1)
+		}
+	}
 	// 5. special cut points
 	specials := []string{"\"\\", "\"\\1", "\"\\12", "\"\\256\"", "\"\\\n", "'\\\r\n'", "[[", "[=[", "[==[x]=]", "--[[", "--[==[x]]", "0x", "0xg", "1e", "1e+", "1..2", "1...2", "3..", ".", "..", "...",
 		"#!shebang\nreturn 1", "#!only", "#", "\xef\xbb\xbfreturn 1", "return\"a\\z  b\"", "x = 'a\nb'", "goto", "goto 1", "::", "::x", "::x::", "::x:: ::x::", "goto nowhere", "do local a goto l local b ::l:: b = 1 end",
@@ -423,10 +526,47 @@ func run(c *fw.Ctx) {
 	}
 }
 
+// alignProgram: every line end of this text is slid across the 4096-byte
+// refills of the scanner's reader. The line ends sit inside long strings,
+// after a backslash in a short string, inside a block comment and between
+// statements; one statement fails so that a line number is reported.
+const alignProgram = "local s = [[\nfirst\nsecond]]\nemit(#s, s)\nlocal t = \"a\\\nb\"\nemit(#t, t)\nlocal u = [==[\n\nx\n]==]\nemit(#u, u)\n" +
+	"--[[ block\ncomment ]] emit('after-comment')\nemit(pcall(function()\n  local z = nil + 1\nend))\nemit('last')\n"
+
+func alignSource(k int, eol string) string {
+	return "--" + strings.Repeat("x", k) + eol + strings.ReplaceAll(alignProgram, "\n", eol)
+}
+
+func runAlign(c *fw.Ctx, k int, eol string, ref *lrun.ImplRun, count bool) {
+	src := alignSource(k, eol)
+	cs := Case{Kind: "align", N: k, Family: eol}
+	c.Begin(cs)
+	got := lrun.RunImpl(src, &lrun.Config{})
+	if count {
+		c.Count("alignment_cases", 1)
+	}
+	if got.LoadErr != "" || got.GoPanic != "" {
+		c.Violation(fmt.Sprintf("a valid program is rejected when its line ends (%q) are shifted by %d bytes: %s", eol, k, got.LoadErr+got.GoPanic), cs)
+		c.End(false, "")
+		return
+	}
+	if d := lrun.CompareImpl(ref, got, true); d != nil {
+		c.Violation(fmt.Sprintf("the meaning of a program depends on where its line ends (%q) fall (shift %d): %s", eol, k, d.String()), cs)
+		c.End(false, "")
+		return
+	}
+	c.End(true, fmt.Sprintf("align/%d/%q", k, eol))
+}
+
 func replay(c *fw.Ctx, raw json.RawMessage) {
+	debug.SetMaxStack(maxStackMB << 20)
 	var cs Case
 	if err := json.Unmarshal(raw, &cs); err != nil {
 		fmt.Println("bad case:", err)
+		return
+	}
+	if cs.Kind == "align" {
+		runAlign(c, cs.N, cs.Family, lrun.RunImpl(alignSource(0, "\n"), &lrun.Config{}), false)
 		return
 	}
 	b := cs.Bytes
